@@ -55,7 +55,8 @@ Modes(f) == IF f = "grpcjson" THEN {"stream", "continue"} ELSE {"stream", "prelo
 SizeClasses   == {"truncated", "negsize", "absurdsize", "nonnumsize"}
 HeaderClasses == {"hdr_nocolon", "hdr_nobracket", "hdr_emptykey"}
 JsonClasses   == {"badjson", "shape_array", "shape_type", "shape_scalar"}
-AmmoClasses   == {"none", "longline", "nullvalue", "badrequest"} \cup SizeClasses \cup HeaderClasses \cup JsonClasses
+FieldClasses  == {"nouri", "badurl", "badmethod"}
+AmmoClasses   == {"none", "longline", "nullvalue", "badrequest"} \cup SizeClasses \cup HeaderClasses \cup JsonClasses \cup FieldClasses
 
 Applies(f, c) ==
     CASE c = "none"          -> TRUE
@@ -65,6 +66,9 @@ Applies(f, c) ==
       [] c = "nullvalue"     -> f \in {"jsonline", "jsonarray", "grpcjson"}
       [] c = "longline"      -> f # "jsonarray"
       [] c = "badrequest"    -> f = "raw"       \* right size, but the bytes are not an HTTP request
+      [] c = "nouri"         -> f = "uripost"   \* size line with a single field
+      [] c = "badurl"        -> f \in {"uri", "uripost"}            \* url.Parse fails
+      [] c = "badmethod"     -> f \in {"jsonline", "jsonarray"}     \* not an HTTP method token
       [] OTHER               -> FALSE
 
 \* readers built on bufio.Scanner have a line limit (64 KiB unless max ammo size is raised); the
@@ -111,6 +115,9 @@ DescTable == [
     bad_json_source  |-> [t |-> ScenarioTargets, at |-> 1, v |-> "reject"],
     unknown_source   |-> [t |-> ScenarioTargets, at |-> 1, v |-> "reject"],
     no_scenarios     |-> [t |-> ScenarioTargets, at |-> 2, v |-> "reject"],
+    null_source      |-> [t |-> {"http_yaml", "grpc_yaml"}, at |-> 1, v |-> "reject"],
+    null_postproc    |-> [t |-> {"http_yaml", "grpc_yaml"}, at |-> 1, v |-> "reject"],
+    null_preproc     |-> [t |-> {"grpc_yaml"}, at |-> 1, v |-> "reject"],
     neg_weight       |-> [t |-> ScenarioTargets, at |-> 1, v |-> "reject"],
     var_randint_eq   |-> [t |-> ScenarioTargets, at |-> 1, v |-> "either"],
     var_randint_ovf  |-> [t |-> ScenarioTargets, at |-> 1, v |-> "either"],
